@@ -43,20 +43,9 @@ func sameFloat(a, b ssa.Value) bool {
 // nanSafeBounded: ins is dominated by the TRUE edges of ordered comparisons of f giving a lower and an upper bound.
 // A true ordered comparison excludes NaN; false edges do not.
 func nanSafeGuards(ins ssa.Instruction, f ssa.Value) (lower, upper, anyTrue bool) {
-	for d := ins.Block(); d != nil; d = d.Idom() {
-		idom := d.Idom()
-		if idom == nil || len(idom.Instrs) == 0 {
-			continue
-		}
-		ifi, ok := idom.Instrs[len(idom.Instrs)-1].(*ssa.If)
-		if !ok {
-			continue
-		}
-		bo, ok := ifi.Cond.(*ssa.BinOp)
-		if !ok {
-			continue
-		}
-		if !edgeDominates(idom, 0, ins.Block()) {
+	for _, fact := range impliedConds(ins.Block()) {
+		bo, ok := fact.Cond.(*ssa.BinOp)
+		if !ok || !fact.Truth { // only the TRUE outcome of an ordered comparison excludes NaN
 			continue
 		}
 		fx, fy := sameFloat(bo.X, f), sameFloat(bo.Y, f)
